@@ -28,6 +28,8 @@ from vf import elab
 from vf import symx
 from vf.symx import SymBool, SymInt, PathEnd
 from vf.loopcut import SymReal, _r
+try: from vf.loopcut import MathShim
+except ImportError: MathShim = object
 from vf.core import Case, PROVED, VIOLATED, NOINPUT, UNKNOWN, BOUNDED_OK, OK, VACUOUS, FAULT
 from vf.hw import res
 from migen import Signal
@@ -141,7 +143,10 @@ def _nl_assigned(block, names=None, muts=None):
     return names, muts
 
 def _can_leave(body):
-    return any(isinstance(n, ast.Break) for n in _walk_level(body)) or any(isinstance(n, (ast.Return, ast.Raise)) for s in body for n in ast.walk(s))
+    """how an iteration can leave: 'break' (break of this loop, or a raise statement anywhere inside), 'return' (only by return), '' (not at all)"""
+    if any(isinstance(n, ast.Break) for n in _walk_level(body)) or any(isinstance(n, ast.Raise) for s in body for n in ast.walk(s)): return "break"
+    if any(isinstance(n, ast.Return) for s in body for n in ast.walk(s)): return "return"
+    return ""
 
 # ------------------------------------------------------------------------------------------------------------ the rewriter
 def _P(src): return ast.parse(textwrap.dedent(src)).body
@@ -192,7 +197,7 @@ class Exhaust(ast.NodeTransformer):
         body_b = _flat([_LevelB(lid).visit(copy.deepcopy(s)) for s in node.body])
         body_b = _flat([_RetB(lid).visit(s) for s in body_b])
         enter = _P(f"__it{lid} = __vc.enter({lid}, None, locals())"); enter[0].value.args[1] = node.iter
-        top = _P(f"if __vc.leaves({lid}, {can_leave}):\n    pass\nelse:\n    __w{lid} = __vc.witness({lid}, __it{lid}, locals())\n    if __w{lid} is not __vc.NOW:\n        pass")[0]
+        top = _P(f"if __vc.leaves({lid}, {can_leave!r}):\n    pass\nelse:\n    __w{lid} = __vc.witness({lid}, __it{lid}, locals())\n    if __w{lid} is not __vc.NOW:\n        pass")[0]
         el = _P(f"x = __vc.elem({lid}, __it{lid})")[0]; el.targets = [copy.deepcopy(node.target)]
         wh_a = ast.While(test=ast.Constant(True), body=body_a + _P(f"__vc.cut({lid})"), orelse=[])
         top.body = havoc() + [el, wh_a]
@@ -209,7 +214,7 @@ def rewrite(fn, specs, vc, extra_globals=None):
     ex = Exhaust(specs); tree = ex.visit(tree); ast.fix_missing_locations(tree)
     missing = [k for k in specs if k not in [i["target"] for i in ex.info.values()]]
     if missing: raise Unsupported(f"loops {missing} not found in the current source of {fn.__qualname__}")
-    g = dict(fn.__globals__); g["__vc"] = vc
+    g = _contract_globals(dict(fn.__globals__)); g["__vc"] = vc
     if extra_globals: g.update(extra_globals)
     exec(compile(tree, f"<exhaust:{fn.__qualname__}>", "exec"), g)
     return g[fn.__name__], ast.unparse(tree), ex.info
@@ -253,7 +258,7 @@ class It:
 class XVC:
     NOW = object()           # "no witness here"
     def __init__(self, specs, log, use_witness=True):
-        self.specs = specs; self.k = 0; self.log = log; self.use_witness = use_witness
+        self.specs = specs; self.k = 0; self.log = log; self.use_witness = use_witness; self.all_arms = False
     def _n(self): self.k += 1; return self.k
     def fresh(self, kind, name):
         k = self._n()
@@ -270,7 +275,10 @@ class XVC:
             if len(els) > 50000: raise Unsupported("iterable too long")
         return It(els)
     def leaves(self, lid, can_leave):
+        """arm (a) or arm (b)?  An iteration that can leave only by `return` ends the call with a configuration: it cannot contribute a
+        refusal, so arm (a) is not explored for such loops unless self.all_arms (the soundness modules explore those iterations)"""
         if not can_leave: return False
+        if can_leave == "return" and not self.all_arms: self._ev(("arm-a-not-explored(return-only)", lid)); return False
         return bool(SymBool(z3.Bool(f"leaves{lid}!{self._n()}")))
     def elem(self, lid, it): return it.arbitrary(self, f"x{lid}")
     def witness(self, lid, it, L):
@@ -295,14 +303,65 @@ class XVC:
         if isinstance(v, Poison): return v
         raise Unsupported(f"havoc of the mutated object '{name}' of type {type(v).__name__}")
 
+_LIN = {}
+def _is_num(t):
+    if z3.is_rational_value(t) or z3.is_int_value(t): return True
+    return z3.is_app(t) and t.decl().kind() == z3.Z3_OP_TO_REAL and _is_num(t.arg(0))
+def _linear(t):
+    """term without products of unknowns / division by unknowns"""
+    k = t.get_id()
+    if k in _LIN: return _LIN[k]
+    r = True
+    if z3.is_app(t):
+        kind = t.decl().kind(); ch = t.children()
+        if kind == z3.Z3_OP_MUL: r = len([c for c in ch if not _is_num(c)]) <= 1
+        elif kind in (z3.Z3_OP_DIV, z3.Z3_OP_IDIV, z3.Z3_OP_MOD, z3.Z3_OP_REM): r = _is_num(ch[1])
+        elif kind == z3.Z3_OP_POWER: r = False
+        r = r and all(_linear(c) for c in ch)
+    elif z3.is_quantifier(t): r = False
+    _LIN[k] = r
+    return r
+
+class CtxX(CtxU):
+    """CtxU (an undecided feasibility query keeps the path) with a cheap first stage: a LINEAR branch condition is first decided
+    against the linear part of the path condition (a subset: `unsat` there is `unsat` for the whole path condition); this settles
+    the range-membership questions without handing them to the nonlinear solver"""
+    def _lin(self, c):
+        s = z3.Solver(); s.set("timeout", 5000); s.add(*[p for p in self.pc if _linear(p)]); s.add(c)
+        CtxU.queries += 1
+        return s.check()
+    def branch(self, cond):
+        if self.pos < len(self.decisions):
+            d = self.decisions[self.pos]
+        else:
+            d = None
+            if _linear(cond):
+                a = self._lin(cond); b = self._lin(z3.Not(cond))
+                if a == z3.unsat and b == z3.unsat: raise PathEnd()
+                if a == z3.unsat: d = "F"
+                elif b == z3.unsat: d = "T"
+            if d is None:
+                t_ok = self._chk(*self.pc, cond) != z3.unsat
+                f_ok = self._chk(*self.pc, z3.Not(cond)) != z3.unsat
+                if t_ok and f_ok: d = True
+                elif t_ok: d = "T"
+                elif f_ok: d = "F"
+                else: raise PathEnd()
+            self.decisions.append(d)
+        self.pos += 1
+        r = d in (True, "T")
+        self.pc.append(cond if r else z3.Not(cond))
+        return r
+
 def explore(run):
-    """depth-first over decision prefixes (as symx.explore) with CtxU (an undecided feasibility query keeps the path)"""
+    """depth-first over decision prefixes (as symx.explore); an undecided feasibility query keeps the path.  `run` returns obligations
+    (name, z3 term, extra); an exception of the explored code that `run` does not handle is recorded as fault (never a crash of the case)"""
     CtxU.unknowns = 0; CtxU.queries = 0; CtxU.slow = []
     stack = [[]]; results = []; done = 0; ended = 0; faults = []
     while stack:
         if done + ended > MAX_PATHS: faults.append("path budget exceeded"); break
         dec = stack.pop()
-        symx.CTX = CtxU(); symx.CTX.decisions = list(dec); symx.CTX.solver.set("timeout", FEAS_TIMEOUT_MS)
+        symx.CTX = CtxX(); symx.CTX.decisions = list(dec); symx.CTX.solver.set("timeout", FEAS_TIMEOUT_MS)
         try:
             out = run(symx.CTX); done += 1
             for name, ob, extra in out:
@@ -313,6 +372,64 @@ def explore(run):
         for i in range(len(dec), len(d)):
             if d[i] is True: stack.append(d[:i] + [False])
     return dict(done=done, ended=ended, results=results, faults=faults, unknown_queries=CtxU.unknowns, queries=CtxU.queries)
+
+# ------------------------------------------------------------------------------------------------------------ contracts of builtins on proxies
+class MathX(MathShim):
+    """stands for the `math` module in the rewritten function (gcd: vf.loopcut.MathShim); ceil/floor on proxies by their real-number contracts"""
+    def __getattr__(self, name): return getattr(math, name)
+    def ceil(self, x):
+        if not isinstance(x, SymInt): return math.ceil(x)
+        if x.t.sort() == z3.IntSort(): return x
+        k = _fresh_int("ceil"); _assume(z3.And(z3.ToReal(k.t) - 1 < x.t, x.t <= z3.ToReal(k.t))); return k
+    def floor(self, x):
+        if not isinstance(x, SymInt): return math.floor(x)
+        if x.t.sort() == z3.IntSort(): return x
+        k = _fresh_int("floor"); _assume(z3.And(z3.ToReal(k.t) <= x.t, x.t < z3.ToReal(k.t) + 1)); return k
+    def trunc(self, x): return _c_int(x)
+    def fabs(self, x): return abs(x)
+    def isclose(self, a, b, rel_tol=1e-9, abs_tol=0.0):
+        if not isinstance(a, SymInt) and not isinstance(b, SymInt): return math.isclose(a, b, rel_tol=rel_tol, abs_tol=abs_tol)
+        d = abs(a - b); return (d <= rel_tol * abs(a)) | (d <= rel_tol * abs(b)) | (d <= abs_tol)
+    if MathShim is object:
+        def gcd(self, *args):
+            if all(isinstance(a, int) for a in args): return math.gcd(*args)
+            g = _fresh_int("gcd"); _assume(g.t >= 0)
+            for a in args:
+                at = a.t if isinstance(a, SymInt) else z3.IntVal(int(a))
+                if at.sort() != z3.IntSort(): raise TypeError("gcd of a non-integer proxy")
+                ka = _fresh_int("gcdk"); _assume(at == g.t * ka.t); _assume(z3.Implies(at != 0, g.t >= 1))
+            return g
+_FR = [0]
+def _fresh_int(name): _FR[0] += 1; return SymInt(z3.Int(f"{name}!c{_FR[0]}"))
+def _c_int(x, *a):
+    """int(): truncation towards zero"""
+    if not isinstance(x, SymInt): return int(x, *a)
+    if x.t.sort() == z3.IntSort(): return x
+    k = _fresh_int("trunc"); kr = z3.ToReal(k.t)
+    _assume(z3.If(x.t >= 0, z3.And(kr <= x.t, x.t < kr + 1), z3.And(kr - 1 < x.t, x.t <= kr))); return k
+def _c_round(x, nd=None):
+    """round(): some integer within 1/2 (ties are not resolved: over-approximation)"""
+    if not isinstance(x, SymInt): return round(x) if nd is None else round(x, nd)
+    if nd is not None: return x
+    if x.t.sort() == z3.IntSort(): return x
+    k = _fresh_int("round"); kr = z3.ToReal(k.t); h = z3.RealVal("1/2")
+    _assume(z3.And(kr - h <= x.t, x.t <= kr + h)); return k
+def _c_float(x):
+    if not isinstance(x, SymInt): return float(x)
+    return SymReal(_r(x))
+def _c_pow(a, b, *m):
+    if isinstance(b, int) and not isinstance(b, bool) and 0 <= b <= 4 and isinstance(a, SymInt) and not m:
+        r = 1
+        for _ in range(b): r = r * a
+        return r
+    return pow(a, b, *m)
+def _contract_globals(g):
+    """globals of the rewritten function: the math module and the numeric builtins are replaced by their contracts on proxies"""
+    _FR[0] = 0
+    for k_, v_ in list(g.items()):
+        if v_ is math: g[k_] = MathX()
+    g.update(int=_c_int, round=_c_round, float=_c_float, pow=_c_pow)
+    return g
 
 # ------------------------------------------------------------------------------------------------------------ helpers for the contracts
 def _assume(t): symx.CTX.assume(SymBool(t) if not isinstance(t, SymBool) else t)
@@ -340,15 +457,18 @@ def _val(m, t):
     return None
 _nolog = {"compute_config_log": lambda *a, **k: None}
 
-def prove_complete(label, setup, fn_real, spec_keys, replay=None, extra_globals=None, functions=(), expect_paths=True):
+def prove_complete(label, setup, fn_real, spec_keys, replay=None, extra_globals=None, all_arms=False):
     """setup(ctx) -> (pll, witness_specs {loop target: dict(witness=fn(vc, L))}, model_terms {name: z3 term}); runs the exhaustion proof,
-    the vacuity guards and (for a counter-model) the native replay `replay(values) -> (is_real_counterexample, text)`"""
+    the vacuity guards and, for a counter-model, the native replay `replay(values, planted) -> (verdict, text)`; verdict is
+    'refused-though-a-setting-exists' / 'crash' (genuine counterexamples of the real function under plain CPython) or 'ok'.
+    planted=True replays the request that has the model's witness setting as an exact solution (tight margins) - another point of
+    the input space, decided natively like the first"""
     t0 = time.time(); out = []
     log = {}; infos = {}; srcs = {}
     def run_with(use_witness):
         def run(ctx):
             pll, specs, terms = setup(ctx)
-            vc = XVC(specs, log if use_witness else {}, use_witness)
+            vc = XVC(specs, log if use_witness else {}, use_witness); vc.all_arms = all_arms
             fn, src, info = rewrite(fn_real, {k: specs.get(k, {}) for k in spec_keys}, vc, extra_globals=dict(_nolog, **(extra_globals or {})))
             vc.key = {lid: i["target"] for lid, i in info.items()}
             infos.update(info); srcs["src"] = src
@@ -356,31 +476,55 @@ def prove_complete(label, setup, fn_real, spec_keys, replay=None, extra_globals=
             try: fn(pll)
             except ValueError as e:
                 return [("refused", z3.BoolVal(False), dict(terms=terms, msg=str(e)))]
+            except (PathEnd, Unsupported): raise
+            except Exception as e:               # the explored code raised something else on this path (or the proxies cannot execute it)
+                import traceback
+                return [("exception", z3.BoolVal(False), dict(terms=terms, msg=f"{type(e).__name__}: {e}", tb=traceback.format_exc()[-600:]))]
             return [("returned", z3.BoolVal(False), None)]
         return run
+    name = f"{label}.ens.complete"
     try:
         ex = explore(run_with(True))
-    except Unsupported as e:
-        return [res(f"{label}.ens.complete", "pysym", UNKNOWN, time.time() - t0, "", info=f"unsupported: {e}")]
+    except Unsupported as e:                     # raised while rewriting (loop shape not supported / loop not found)
+        return [res(name, "pysym", UNKNOWN, time.time() - t0, "", info=f"unsupported: {e}")]
     refused = [r for r in ex["results"] if r[0] == "refused"]; returned = [r for r in ex["results"] if r[0] == "returned"]
-    bad = [r for r in refused if r[1] == z3.sat]; und = [r for r in refused if r[1] == z3.unknown]
+    crashed = [r for r in ex["results"] if r[0] == "exception"]
+    bad = [r for r in refused if r[1] == z3.sat]; und = [r for r in refused + crashed if r[1] == z3.unknown]
+    badx = [r for r in crashed if r[1] == z3.sat]
     info = dict(paths_completed=ex["done"], paths_ended=ex["ended"], refusing_paths=len(refused), refusing_paths_infeasible=len([r for r in refused if r[1] == z3.unsat]),
                 feasibility_queries=ex["queries"], undecided_feasibility_queries=ex["unknown_queries"],
                 loops={str(k): v for k, v in infos.items()})
-    if ex["faults"]:
-        out.append(res(f"{label}.ens.complete", "pysym", UNKNOWN, time.time() - t0, "exhaust+z3", info="; ".join(sorted(set(ex["faults"])))[:600], **{"detail": info}))
-    elif bad:
-        r = bad[0]; vals = {k: _val(r[2], t) for k, t in r[3]["terms"].items()} if r[2] is not None else {}
-        real, text = (False, "no model") if not vals or replay is None else replay(vals)
-        out.append(res(f"{label}.ens.complete", "pysym", VIOLATED if real else NOINPUT, time.time() - t0, "exhaust+z3", model={k: str(v) for k, v in vals.items()},
-                       info=("native replay: " + text)[:900], detail=info))
+    def try_replays(rs):
+        """native replays of up to 3 counter-models (as found, then planted); first genuine counterexample wins"""
+        last = ("ok", "no model", {})
+        for r in rs[:3]:
+            if r[2] is None: continue
+            vals = {k: _val(r[2], t) for k, t in r[3]["terms"].items()}
+            if replay is None or any(v is None for v in vals.values()): last = ("ok", "model not evaluable", vals); continue
+            for planted in (False, True):
+                try: verdict, text = replay(vals, planted)
+                except Exception as e: verdict, text = "ok", f"replay failed: {type(e).__name__}: {e}"
+                last = (verdict, text, vals)
+                if verdict != "ok": return last
+        return last
+    if bad:
+        verdict, text, vals = try_replays(bad)
+        out.append(res(name, "pysym", VIOLATED if verdict != "ok" else NOINPUT, time.time() - t0, "exhaust+z3", model={k: str(v) for k, v in vals.items()},
+                       info=(f"a path reaches `raise ValueError` although a witness setting exists; native replay [{verdict}]: " + text)[:1200], detail=info))
+    elif badx:
+        verdict, text, vals = try_replays(badx)
+        st = VIOLATED if verdict != "ok" else UNKNOWN
+        out.append(res(name, "pysym", st, time.time() - t0, "exhaust+z3", model={k: str(v) for k, v in vals.items()},
+                       info=(f"the explored code raised {badx[0][3]['msg']} on a feasible path; native replay [{verdict}]: {text}; {badx[0][3].get('tb', '')}")[:1500], detail=info))
+    elif ex["faults"]:
+        out.append(res(name, "pysym", UNKNOWN, time.time() - t0, "exhaust+z3", info="; ".join(sorted(set(ex["faults"])))[:600], detail=info))
     elif und:
-        out.append(res(f"{label}.ens.complete", "pysym", UNKNOWN, time.time() - t0, "exhaust+z3", info=f"{len(und)} refusing path(s) undecided", detail=info))
+        out.append(res(name, "pysym", UNKNOWN, time.time() - t0, "exhaust+z3", info=f"{len(und)} refusing path(s) undecided", detail=info))
     else:
-        out.append(res(f"{label}.ens.complete", "pysym", PROVED, time.time() - t0, "exhaust+z3-5.1.0(api)", detail=info,
-                       formula="forall request, forall W in declared ranges with VCO/PFD window and per-output margin: compute_config does not raise"))
+        out.append(res(name, "pysym", PROVED, time.time() - t0, "exhaust+z3-5.1.0(api)", detail=info,
+                       formula="forall request, forall W in the declared ranges with the VCO/PFD windows and per-output margins: compute_config does not raise"))
     # ---- vacuity guards
-    def cover(name, ok, **kw): out.append(res(f"{label}.cover.{name}", "cover", OK if ok else VACUOUS, 0, "z3", **kw))
+    def cover(cname, ok, **kw): out.append(res(f"{label}.cover.{cname}", "cover", OK if ok else VACUOUS, 0, "z3", **kw))
     wa = log.get(("witness-assumptions",))
     if wa and wa["pc"] is not None:
         r, mdl = _decide(wa["pc"]); cover("witness-assumptions-satisfiable", r == z3.sat, info=str(r))
@@ -398,7 +542,7 @@ def prove_complete(label, setup, fn_real, spec_keys, replay=None, extra_globals=
     cover("paths-dropped-by-exhaustion", okd, events={f"{infos[k[1]]['target']}:{k[2]}": e["count"] for k, e in dropped})
     nm = [k for k in log if k[0] == "witness-not-in-real-iterable"]
     if nm: out.append(res(f"{label}.info.witness-not-in-real-iterable", "info", OK, 0, "", loops=[infos[k[1]]["target"] for k in nm]))
-    cover("return-reachable", any(r[1] == z3.sat for r in returned), paths=len(returned))
+    if returned: cover("return-reachable", any(r[1] == z3.sat for r in returned), paths=len(returned))
     ex2 = explore(run_with(False))
     cover("refusal-reachable-without-witness-facts", any(r[0] == "refused" and r[1] == z3.sat for r in ex2["results"]) and not ex2["faults"], paths=ex2["done"], info="; ".join(ex2["faults"])[:300])
     return out
